@@ -178,13 +178,19 @@ func checkC14(w *World, c *Check) {
 func c14Replay(map[string]string) string {
 	return `package activitypub
 
-import "testing"
+import (
+	"net/url"
+	"path"
+	"sort"
+	"strings"
+	"testing"
+)
 
 func TestVerifReplay(t *testing.T) {
 	schemes := []string{"http://", "https://", "HTTP://"}
-	hosts := []string{"example.com", "EXAMPLE.com", "example.com:8080", "example.com:9090", "example.net"}
-	paths := []string{"", "/", "/a", "/a/", "/A", "/a/b", "/a/../a"}
-	queries := []string{"", "?x=1", "?x=1&y=2", "?y=2&x=1", "?x=1&x=1", "?x=1&x=2", "?x=2&x=1", "?u=http://other.org/x"}
+	hosts := []string{"example.com", "EXAMPLE.com", "example.com:8080", "example.net"}
+	paths := []string{"", "/", "/a", "/a/", "/A", "/a/b", "/a/../a", "/../a", "/b/../../a", "/../example.net/a"}
+	queries := []string{"", "?x=1", "?x=1&y=2", "?y=2&x=1", "?x=1&x=1", "?x=1&x=2", "?u=http://other.org/x"}
 	frags := []string{"", "#f"}
 	var iris []IRI
 	for _, s := range schemes {
@@ -200,6 +206,28 @@ func TestVerifReplay(t *testing.T) {
 	}
 	iris = append(iris, "", "-", "not a url", "#frag", "/relative")
 	host := func(i IRI) string { u, _ := i.URL(); if u == nil { return "" }; return u.Host }
+	// reference normaliser (the statement's component rule): host with port, cleaned path, multiset of query parameters
+	type nf struct{ ok bool; scheme, host, path, query string }
+	norm := map[IRI]nf{}
+	for _, i := range iris {
+		u, err := url.Parse(string(i))
+		if err != nil || u.Scheme == "" || u.Host == "" {
+			norm[i] = nf{}
+			continue
+		}
+		p := path.Clean(u.Path)
+		if p == "." || p == "" {
+			p = "/"
+		}
+		var qs []string
+		for k, vs := range u.Query() {
+			for _, v := range vs {
+				qs = append(qs, k+"="+v)
+			}
+		}
+		sort.Strings(qs)
+		norm[i] = nf{true, strings.ToLower(u.Scheme), strings.ToLower(u.Host), strings.ToLower(p), strings.Join(qs, "&")}
+	}
 	for _, cs := range []bool{true, false} {
 		for _, a := range iris {
 			if !a.Equals(a, cs) {
@@ -212,6 +240,12 @@ func TestVerifReplay(t *testing.T) {
 				}
 				if ab && host(a) != "" && host(b) != "" && !eqFoldASCII(host(a), host(b)) {
 					t.Fatalf("%q equals %q although the hosts (with port) differ", a, b)
+				}
+				if na, nb := norm[a], norm[b]; na.ok && nb.ok {
+					want := na.host == nb.host && na.path == nb.path && na.query == nb.query && (!cs || na.scheme == nb.scheme)
+					if ab != want {
+						t.Fatalf("%q.Equals(%q,%v)=%v but the component rule (host, cleaned path, query multiset) says %v", a, b, cs, ab, want)
+					}
 				}
 			}
 		}
